@@ -170,6 +170,9 @@ func runC12(r *simkit.Run, c Cfg) {
 				e.prov = unknownProv
 			}
 			e.ctxID = tp.Bytes(tp.Choose(65, "ctxlen"), "ctx")
+			if tp.Chance(1, 4, "maxctx") {
+				e.ctxID = tp.Bytes(64, "ctx64")
+			}
 			e.metadata = tp.Bytes(1+tp.Choose(100, "mdlen"), "md")
 			if byzantine && tp.Chance(1, 2, "tamper?") {
 				e.tamper = 1 + tp.Choose(dtNum-1, "tamper")
@@ -204,6 +207,24 @@ func runC12(r *simkit.Run, c Cfg) {
 			if back, err := dhash.DecryptMetadata(emd, vk); err != nil || !bytes.Equal(back, e.metadata) {
 				r.Violate("c12.roundtrip", "decrypt(encrypt(metadata)) failed: %v", err)
 			}
+			// a passphrase that differs anywhere - also only in its last byte,
+			// also beyond the first 64 bytes - must not decrypt
+			near := append([]byte(nil), vk...)
+			near[len(near)-1] ^= 1
+			if back, err := dhash.DecryptMetadata(emd, near); err == nil {
+				r.Violate("c12.failclosed", "metadata decrypted (%d bytes) under a %d-byte passphrase that differs from the right one in its last byte", len(back), len(near))
+			}
+			longPass := append(append([]byte(nil), vk...), tp.Bytes(1+tp.Choose(80, "longpass"), "longpassb")...)
+			if n, ct, err := dhash.EncryptAES(e.metadata, longPass); err == nil {
+				lp2 := append([]byte(nil), longPass...)
+				lp2[len(lp2)-1] ^= 0x80
+				if _, err := dhash.DecryptAES(n, ct, lp2); err == nil {
+					r.Violate("c12.failclosed", "payload decrypted under a %d-byte passphrase differing in its last byte", len(lp2))
+				}
+				if back, err := dhash.DecryptAES(n, ct, longPass); err != nil || !bytes.Equal(back, e.metadata) {
+					r.Violate("c12.roundtrip", "round trip with a %d-byte passphrase failed: %v", len(longPass), err)
+				}
+			}
 			hvk := sha256.Sum256(vk)
 			mdKey := base58.Encode(hvk[:])
 			switch e.tamper {
@@ -220,7 +241,15 @@ func runC12(r *simkit.Run, c Cfg) {
 			case dtFlipMD:
 				emd = flipBit(emd, e.arg)
 			case dtOtherKeyMD:
-				emd = must(dhash.EncryptMetadata(e.metadata, []byte("another value key")))
+				if e.arg%2 == 0 {
+					emd = must(dhash.EncryptMetadata(e.metadata, []byte("another value key")))
+				} else {
+					// the value key of a sibling context: same provider, context
+					// ID differing only in its last byte
+					sib := append([]byte(nil), vk...)
+					sib[len(sib)-1] ^= 1
+					emd = must(dhash.EncryptMetadata(e.metadata, sib))
+				}
 			}
 			st.byMH2[key] = append(st.byMH2[key], evk)
 			if e.tamper != dtMissingMD {
